@@ -148,6 +148,16 @@ Theorem source_shape :
   (forall v value fs fsv s, step1_shape v value fs fsv s = step1 cur_fxp cur_fxs v value fs fsv s).
 Proof. exact shape_ok. Qed.
 
+(* _GD_GetIndex as a whole: prologue (end-point reads, singular range, direction, the two extrapolations)
+   assembled from the regenerated conditions, followed by the two loops, is the model's get_index *)
+Theorem source_get_index : forall fuel v value fs fe,
+  get_index_shape fuel v value fs fe = get_index_cur fuel v value fs fe.
+Proof. exact shape_get_index. Qed.
+
+Theorem source_framenum : forall fuel v spf fo nf value fs fe,
+  framenum_shape fuel v spf fo nf value fs fe = framenum_cur fuel v spf fo nf value fs fe.
+Proof. exact framenum_shape_eq. Qed.
+
 Theorem source_conditions : forall e,
   (if fs_c2 e then fs_a0 e else fs_a1 e) = sample_start (ShapeEnv.e_spf e) (ShapeEnv.e_fo e) (ShapeEnv.e_fs e) /\
   (if fs_c3 e then fs_a2 e else fs_a3 e) = sample_end (ShapeEnv.e_spf e) (ShapeEnv.e_nf e) (ShapeEnv.e_fe e) /\
